@@ -66,6 +66,20 @@ def state_of(solver):
         out["value_history"] = None if info.value_history is None else np.array(info.value_history, copy=True)
         out["history_index"] = int(info.history_index)
         out["period"] = int(info.period)
+    # the same quantities read directly from the solver's public attributes (not through the
+    # solver_state property): a hand-off that alters a field on its way to the writer shows up as a
+    # difference between what the writer HELD and what a restore returns
+    for name in ("iteration", "history_index", "period"):
+        if hasattr(solver, name) and getattr(solver, name) is not None:
+            try:
+                out["attr_" + name] = int(getattr(solver, name))
+            except Exception:
+                pass
+    if hasattr(solver, "gain"):
+        try:
+            out["attr_gain"] = float(solver.gain)
+        except Exception:
+            pass
     return out
 
 
